@@ -1,3 +1,155 @@
 import Driver.Common
--- stub driver for C04 (replaced when the property's model is built)
-def main (args : List String) : IO UInt32 := Driver.main' (fun _ => "bad-op") (fun _ _ => "fail bad-op") args
+import GilVerif.Model.C04
+open Driver GilVerif.Model.C04
+
+/-! driver for C04: `model` runs the Impl model (the dispatch / chunk structure of algorithm.hpp) on the views the harness builds;
+    `judge` evaluates the Spec (the obvious per-pixel loops, written directly on the value lists) on the implementation's observation. -/
+
+/-- memory units per pixel step and number of pixel values of an organisation -/
+def orgInfo : String → Option (Nat × Nat)
+  | "rgb8" => some (3, 16777216) | "rgb8p" => some (1, 16777216) | "rgb565" => some (2, 65536)
+  | "gray1" => some (1, 2) | "gray4" => some (4, 16) | "rgb222" => some (6, 64) | "rgb32f" => some (12, 512)
+  | "gray8" => some (1, 256) | "bgr8" => some (3, 16777216)
+  | _ => none
+
+def isBits (org : String) : Bool := org == "gray1" || org == "gray4" || org == "rgb222"
+
+/-- source and destination organisation of the `org` field (`a>b` for cross organisation pairs) -/
+def orgPair (s : String) : String × String :=
+  match s.splitOn ">" with
+  | [a, b] => (a, b)
+  | _ => (s, s)
+
+/-- the view of kind `kind` with parameter `o` over an underlying image with row padding `pad`, based at `B` (memory units) -/
+def mkView (org kind : String) (u w h o pad : Nat) (B : Int) : Option View :=
+  let bitoff : Nat := if isBits org then (o / 9) % 8 else 0
+  let b0 : Int := B + bitoff
+  match kind with
+  | "full" => some ⟨b0, u, (w * u + pad : Nat), w, h⟩
+  | "sub" =>
+    let ox := o % 3; let oy := (o / 3) % 3
+    let R := (w + ox + 1) * u + pad
+    some ⟨b0 + (oy * R + ox * u : Nat), u, R, w, h⟩
+  | "xstep" =>
+    let W0 := if w = 0 then 0 else 2 * w - o % 2
+    some ⟨b0, 2 * u, (W0 * u + pad : Nat), w, h⟩
+  | "trans" => some ⟨b0, (h * u + pad : Nat), u, w, h⟩
+  | _ => none
+
+structure Op where
+  alg : String
+  sorg : String
+  dorg : String
+  s : View
+  s2 : View
+  d : View
+  arg : Nat
+  range : Nat
+  sv : List Nat
+  dv : List Nat
+  s2v : List Nat
+  sk : String
+  dk : String
+  pf : Nat
+
+def parseOp (line : String) : Option Op :=
+  match line.splitOn "|" with
+  | hd :: svs :: dvs :: rest =>
+    match words hd with
+    | [alg, org, sk, dk, w, h, so, dof, spad, dpad, arg, pf] =>
+      let (sorg, dorg) := orgPair org
+      match orgInfo sorg, orgInfo dorg, [w, h, so, dof, spad, dpad, arg].mapM String.toNat?, (words svs).mapM String.toNat?, (words dvs).mapM String.toNat? with
+      | some (su, _), some (du, dr), some [w, h, so, dof, spad, dpad, arg], some sv, some dv =>
+        match mkView sorg sk su w h so spad 0, mkView sorg sk su w h so spad 2000000, mkView dorg dk du w h dof dpad 1000000 with
+        | some s, some s2, some d =>
+          let s2v := match rest with | x :: _ => ((words x).mapM String.toNat?).getD [] | [] => []
+          if sv.length = w * h ∧ dv.length = w * h then some ⟨alg, sorg, dorg, s, s2, d, arg, dr, sv, dv, s2v, sk, dk, pf.toNat?.getD 0⟩ else none
+        | _, _, _ => none
+      | _, _, _, _, _ => none
+    | _ => none
+  | _ => none
+
+/-- memory holding the given values at the pixels of the views -/
+def memOf (l : List (View × List Nat)) : Mem :=
+  let tbl : List (Int × Nat) := l.flatMap (fun p => (specAddrs p.1).zip p.2)
+  fun a => match tbl.find? (fun e => e.1 == a) with | some e => e.2 | none => 0
+
+/-- pixel equality of an organisation on encoded values: rgb32f compares three floats from the table
+    [0.0, -0.0, 0.25, 0.5, 1.0, 0.75, 0.125, NaN] with IEEE ==; everything else compares the integers -/
+def pixEq (org : String) (a b : Nat) : Bool :=
+  if org == "rgb32f" then
+    let ch (i j : Nat) : Bool := (i == j && i != 7) || (i ≤ 1 && j ≤ 1)
+    ch (a % 8) (b % 8) && ch (a / 8 % 8) (b / 8 % 8) && ch (a / 64 % 8) (b / 64 % 8)
+  else a == b
+
+def grayToRgb (v : Nat) : Nat := v + 256 * v + 65536 * v
+
+def showVals (m : Mem) (d : View) : String := String.join ((specAddrs d).map (fun a => " " ++ toString (m a)))
+
+def model (line : String) : String :=
+  match parseOp line with
+  | none => "bad-op"
+  | some o =>
+    let m0 := memOf [(o.s, o.sv), (o.d, o.dv), (o.s2, o.s2v)]
+    let R := o.range
+    let fin (extra : String) (m : Mem) := "frame=ok" ++ extra ++ " ;" ++ showVals m o.d
+    match o.alg with
+    | "copy" => fin "" (implCopy m0 o.s o.d)
+    | "cconv" => fin "" (implConvertCopy m0 o.s o.d (o.sorg != "gray8") grayToRgb)
+    | "fill" =>
+      -- fill_pixels dispatches planar views to static_for_each over the x iterators; for step iterators (subsampled /
+      -- transposed planar views) that does not compile (observed by the compile probe, flag bit 0)
+      if o.dorg == "rgb8p" && (o.dk == "xstep" || o.dk == "trans") && o.pf % 2 == 0 then "err:no-compile"
+      else fin "" (implFill m0 o.d o.arg)
+    | "equal" => fin (if implEqual m0 o.s o.d (pixEq o.dorg) then " eq=1" else " eq=0") m0
+    | "foreach" | "foreachpos" =>
+      -- for_each_pixel(_position): the functor sees the pixels in the traversal order of the code and adds `arg`
+      let order := if o.alg == "foreach" then implFillAddrs o.d else specAddrs o.d
+      let (m, log) := order.foldl (fun (acc : Mem × List Nat) a => (acc.1.set a ((acc.1 a + o.arg) % R), acc.1 a :: acc.2)) (m0, [])
+      fin (" log=" ++ ",".intercalate (log.reverse.map toString)) m
+    | "generate" => fin "" (implGenerate m0 o.d (fun k => (o.arg + k) % R))
+    | "tr1" | "trpos" => fin "" (implTransform m0 o.s o.d (fun v => (v * 3 + o.arg) % R))
+    | "tr2" => fin "" (implTransform2 m0 o.s o.s2 o.d (fun p q => (p + 2 * q + o.arg) % R))
+    | _ => "bad-op"
+
+/-! ### judge: the obvious loops on the value lists -/
+
+def judge (line obs : String) : String :=
+  match parseOp line with
+  | none => "fail bad-op"
+  | some o =>
+    if obs.trimAscii.toString == "err:no-compile" then "fail compiles" else
+    match obs.splitOn ";" with
+    | [hd, vals] =>
+      let hw := words hd
+      match (words vals).mapM String.toNat? with
+      | none => "fail not-a-value:" ++ (obs.take 60).toString
+      | some got =>
+        let R := o.range
+        let frame := hw.find? (fun x => x.startsWith "frame=")
+        let eqObs := hw.find? (fun x => x.startsWith "eq=")
+        let logObs := (hw.find? (fun x => x.startsWith "log=")).map (fun x => ((x.drop 4).toString.splitOn ",").filter (· ≠ ""))
+        let n := o.d.w * o.d.h
+        let expect : Option (List Nat × Option Bool × Option (List Nat)) :=
+          match o.alg with
+          | "copy" => some (o.sv, none, none)
+          | "cconv" => some (if o.sorg == "gray8" then o.sv.map grayToRgb else o.sv, none, none)
+          | "fill" => some (List.replicate n o.arg, none, none)
+          | "equal" => some (o.dv, some ((o.sv.zip o.dv).all (fun p => pixEq o.dorg p.1 p.2)), none)
+          | "foreach" | "foreachpos" => some (o.dv.map (fun v => (v + o.arg) % R), none, some o.dv)
+          | "generate" => some ((List.range n).map (fun k => (o.arg + k) % R), none, none)
+          | "tr1" | "trpos" => some (o.sv.map (fun v => (v * 3 + o.arg) % R), none, none)
+          | "tr2" => some ((o.sv.zip o.s2v).map (fun p => (p.1 + 2 * p.2 + o.arg) % R), none, none)
+          | _ => none
+        match expect with
+        | none => "fail bad-op"
+        | some (vals, eq, log) =>
+          if frame ≠ some "frame=ok" then "fail nothing-else-modified:" ++ (frame.getD "?")
+          else if hw.any (fun x => x.startsWith "srcframe") then "fail source-unmodified"
+          else if got ≠ vals then "fail equals-per-pixel-loop"
+          else if eq.isSome ∧ eqObs ≠ eq.map (fun b => if b then "eq=1" else "eq=0") then "fail equal-iff-all-pixels-equal"
+          else if log.isSome ∧ logObs ≠ log.map (fun l => l.map toString) then "fail row-major-call-order"
+          else "ok"
+    | _ => "fail not-an-observation:" ++ (obs.take 60).toString
+
+def main (args : List String) : IO UInt32 := Driver.main' model judge args
